@@ -34,10 +34,19 @@ def case(draw):
     steep = (0.004, 0.012) if zero else (0.035, 0.09)
     c = draw(W.sea_case(max_points=4, kinds=("jonswap", "jonswap", "pm"), min_nf=14, max_nf=26, steep=steep,
                         nds=(16, 24, 36)))
+    if not zero and draw(st.integers(0, 3)) == 0:
+        # young, fetch-limited wind seas peaked above 0.5 Hz on a grid that resolves them
+        c["fmax"] = draw(fl(1.5, 2.0))
+        c["nf"] = max(c["nf"], 22)
+        for p in c["points"]:
+            p["fp"] = draw(fl(0.52, 0.8))
+            p["hs"] = float(draw(fl(0.04, 0.08)) * W.G / (2 * math.pi * p["fp"] ** 2))
+        c["young_sea"] = True
     c.update({"dissipation": draw(st.sampled_from(["st4", "st4", "st6"])),
               "guess": draw(st.sampled_from(["equilibrium", "equilibrium", "arbitrary"])),
               "guess_u10": [draw(fl(1.0, 30.0)) for _ in c["points"]],
               "dedt_fraction": draw(st.sampled_from([0.0, 0.0, 0.2, -0.2])),
+              "dedt_opposing": draw(st.booleans()),
               "twin": draw(st.integers(0, 3)) == 0,
               "reuse_terms": draw(st.booleans())})
     return c
@@ -62,6 +71,9 @@ def run(c):
     dspec = None
     if c["dedt_fraction"]:
         dE = -Dr * c["dedt_fraction"]           # a fraction of the dissipation magnitude, same support
+        if c.get("dedt_opposing"):
+            # plus an equally large part travelling the opposite way: outside the actively forced bins it must not count
+            dE = dE + np.roll(dE, c["nd"] // 2, axis=-1)
         dspec = W.build(c, dE)
     if c["guess"] == "equilibrium":
         res = estimate_u10_from_source_terms(spec, bal, time_derivative_spectrum=dspec)
@@ -74,8 +86,10 @@ def run(c):
     classes = ["dissipation_" + c["dissipation"], "guess_" + c["guess"]]
     if c.get("reuse_terms"):
         classes.append("balance_used_before_on_another_grid_of_the_same_shape")
+    if c.get("young_sea"):
+        classes.append("young_sea_peaked_above_0.5Hz")
     if dspec is not None:
-        classes.append("with_rate_of_change")
+        classes.append("with_rate_of_change" + ("_partly_outside_the_forced_bins" if c.get("dedt_opposing") else ""))
 
     md = np.asarray(dis.mean_direction_degrees(spec).values, dtype=float)
     nontriv = False
@@ -174,7 +188,8 @@ def fixed_cases():
                        {"kind": "jonswap", "hs": 1.0, "fp": 0.2, "gamma": 2.0, "theta": 200.0, "power": 2}],
             "depth": [float("inf"), 30.0], "u10": [12.0, 8.0], "wdir": [40.0, 190.0], "dissipation": "st4",
             "guess": "equilibrium", "guess_u10": [10.0, 10.0], "dedt_fraction": 0.0, "twin": True}
-    return [base, dict(base, dissipation="st6", guess="arbitrary", dedt_fraction=0.2, twin=False)]
+    return [base, dict(base, dissipation="st6", guess="arbitrary", dedt_fraction=0.2, twin=False),
+            dict(base, dedt_fraction=0.2, dedt_opposing=True, twin=False)]
 
 
 SUBCHECKS = [
